@@ -8,6 +8,10 @@ import Pycoin.Proofs.NativeGen
 import Pycoin.Proofs.NativeFacts
 import Pycoin.Proofs.NativeSecp
 import Pycoin.Proofs.NativeSecpGen
+import Pycoin.Proofs.VerifySets
+import Pycoin.Proofs.SignCongr
+import Pycoin.Proofs.KeySign
+import Pycoin.Proofs.CachedGen
 /-!
 C01 — ECDSA: deterministic signatures verify for the signer and for nobody else.  Property theorems; helper
 lemmas in `Proofs/ECDSA.lean` (on top of the C02 refinement of the group law).
@@ -451,3 +455,365 @@ def exSig := Secp.sign (pureSecp secp256k1) secp256k1 none 12345 987654321
 end examples
 
 end Pycoin.Native
+
+/-! ## "… and for nobody else": the converse of recovery, and what it does not give
+
+`C01_recover_sound_*` says recovered keys verify.  The converse — every key that verifies is `r⁻¹(s•R − z•G)` for a curve
+point `R` with `x(R) ≡ r (mod n)` — holds where `#E(F_p) = n` (every curve point is in the `n`-torsion) and is proved here for
+secp256k1 and secp256r1, together with the exact list of candidates: `x(R) ∈ {r, r + n}` because `p ≤ 2n`.
+`possible_public_pairs_for_signature(z, (r, s))` looks at `x = r` ONLY (`points_for_x(r)`): a key whose nonce point has
+`x(R) = r + n` verifies and is NOT returned; it is returned when the caller passes `(r + n, s)` (the compact-signature code of
+C17 does so for recovery ids 2 and 3).  Consequences: for a fixed `(z, r, s)` at most four keys verify; for a fixed key and
+`(r, s)` at most four residue classes of `z` modulo `n` verify — and the second numbers are not "one": see
+`C01_second_hash_verifies`. -/
+namespace Pycoin.Curve
+open Pycoin
+
+section converse
+variable {c : CurveParams} [Good c] (ok : ECDSAOk c)
+include ok
+
+/-- the verifying keys of `(z, r, s)` are exactly the keys recovery returns at the abscissas `r` and `r + n`.
+PARTIAL: extra hypotheses `p ≡ 3 (mod 4)`, `p ≤ 2n` and "`n` annihilates every curve point" (`#E(F_p) = n`); all three are
+proved for secp256k1 and secp256r1 below. -/
+theorem C01_verifying_keys_partial (h4 : c.p % 4 = 3) (hall : ∀ P : (W c).Point, (c.n : Int) • P = 0) (hp2n : c.p ≤ 2 * c.n)
+    (bf bf' : Int) (Q : Pt) (hQ : OnCurve c Q) (rQ : Reduced c Q) (z r s : Int) (hz : z ≠ 0) :
+    verify c bf Q z r s = .ok true ↔
+      1 ≤ r ∧ r < c.n ∧ 1 ≤ s ∧ s < c.n ∧
+      ((∃ l, possiblePublicPairsForSignature c bf' z r s none = .ok l ∧ Q ∈ l) ∨
+       (∃ l, possiblePublicPairsForSignature c bf' z (r + c.n) s none = .ok l ∧ Q ∈ l)) :=
+  verify_iff_recovered ok h4 hall hp2n bf bf' Q hQ rQ z r s hz
+
+/-- the same in the group: `Q` verifies `(z, r, s)` iff `Q = r⁻¹(s•R − z•G)` for a point `R` with `x(R) mod n = r`
+(`keyOfNonce c z r s R = (s/r)•R − (z/r)•G`).  PARTIAL: extra hypothesis `n • Q = ∞` (every curve point on secp256k1 / secp256r1). -/
+theorem C01_verifying_keys_group_partial (bf : Int) (Q : Pt) (hQ : OnCurve c Q) (rQ : Reduced c Q)
+    (hQn : (c.n : Int) • toPoint c Q = 0) (z r s : Int) (hz : z ≠ 0) :
+    verify c bf Q z r s = .ok true ↔
+      1 ≤ r ∧ r < c.n ∧ 1 ≤ s ∧ s < c.n ∧
+      ∃ R : (W c).Point, (c.n : Int) • R = 0 ∧ xModN c R = some r ∧ toPoint c Q = keyOfNonce c z r s R :=
+  verify_true_iff_nonce_point ok bf Q hQ rQ hQn z r s hz
+
+/-- `verify` sees the hash modulo `n` only: `z` and `z + n` (and `z = n`, which is `≡ 0` but not refused) verify alike.
+pycoin never reduces `z`; it refuses `z = 0` only.  PARTIAL: extra hypothesis `n • Q = ∞`, discharged in
+`C01_verify_hash_mod_n_secp256k1` / `_secp256r1`. -/
+theorem C01_verify_hash_mod_n_partial (bf : Int) (Q : Pt) (hQ : OnCurve c Q) (rQ : Reduced c Q)
+    (hQn : (c.n : Int) • toPoint c Q = 0) (z z' r s : Int) (hz : z ≠ 0) (hz' : z' ≠ 0)
+    (hzz : z % (c.n : Int) = z' % (c.n : Int)) : verify c bf Q z r s = verify c bf Q z' r s :=
+  verify_congr_z ok bf Q hQ rQ hQn z z' r s hz hz' hzz
+
+/-- "rejects any other hash", what is true of it.  PARTIAL (extra hypothesis: the two verifications look at the same nonce
+point): if `(r, s)` verifies under `Q` for `z` and for `z'` with `(z/s)•G + (r/s)•Q = (z'/s)•G + (r/s)•Q`, then
+`z ≡ z' (mod n)` — the map `z ↦ (z/s)•G` is injective modulo `n`.  Without the hypothesis the statement is false
+(`C01_second_hash_verifies`); what remains is `C01_verifying_hashes_finite_*`. -/
+theorem C01_verifying_hash_unique_mod_n_partial (z z' r s : Int) (hs1 : 1 ≤ s) (hs2 : s < c.n) (Q : (W c).Point)
+    (h : noncePointOf c z r s Q = noncePointOf c z' r s Q) : z % (c.n : Int) = z' % (c.n : Int) :=
+  noncePointOf_inj_z ok z z' r s (intCast_ne_zero_of_range s hs1 hs2) Q h
+
+/-- ECDSA's second hash: what verifies for `z` under `d•G` verifies for every non-zero `z' ≡ −z − 2rd (mod n)` — the nonce
+point is replaced by its negative.  True of every ECDSA verifier; "rejects a signature presented with any other hash" holds
+only as an assumption on the hash function (nobody can find a message with that digest). -/
+theorem C01_second_hash_verifies (bf bf' d : Int) (Q : Pt) (hQ : mulG c bf' d = .ok Q) (z z' r s : Int) (hz : z ≠ 0) (hz' : z' ≠ 0)
+    (hzz : (z' : ZMod c.n) = -(z : ZMod c.n) - 2 * (r : ZMod c.n) * (d : ZMod c.n))
+    (h : verify c bf Q z r s = .ok true) : verify c bf Q z' r s = .ok true := by
+  obtain ⟨Q', q1, q2, q3, q4, -⟩ := pubkey_spec ok bf' d
+  rw [hQ] at q1; injection q1 with q1; subst q1
+  exact verify_second_hash ok bf Q q2 q3 d q4 z z' r s hz hz' hzz h
+
+end converse
+
+/-- non-vacuity and replay witness on the toy curve of order 53 (`d = 2`, `Q = 2•G`): the signature `(r, s) = (14, 41)` (nonce `k = 2`)
+verifies for `z = 1` and for `z' = 49 ≡ −1 − 2·14·2 (mod 53)`, two hashes that are not congruent modulo `n`; a third one does not -/
+example : mulG toy53 0 2 = .ok (some (14, 41)) ∧ verify toy53 0 (some (14, 41)) 1 14 41 = .ok true ∧
+    verify toy53 0 (some (14, 41)) 49 14 41 = .ok true ∧ verify toy53 0 (some (14, 41)) 2 14 41 = .ok false ∧
+    (1 : Int) % 53 ≠ 49 % 53 := by decide +kernel
+
+end Pycoin.Curve
+
+namespace Pycoin.Gen.Curves
+open Pycoin.Curve
+
+theorem p_le_2n_secp256k1 : secp256k1.p ≤ 2 * secp256k1.n := by decide +kernel
+theorem p_le_2n_secp256r1 : secp256r1.p ≤ 2 * secp256r1.n := by decide +kernel
+
+/-- **the verifying keys of `(z, r, s)` on secp256k1 are exactly the recovered keys** at the abscissas `r` and `r + n`: for every
+reduced curve point `Q` and `z ≠ 0`, `Generator.verify(Q, z, (r, s))` is `True` iff `1 ≤ r, s < n` and `Q` is in
+`possible_public_pairs_for_signature(z, (r, s))` or in `possible_public_pairs_for_signature(z, (r + n, s))`.  Full. -/
+theorem C01_verifying_keys_secp256k1 (bf bf' : Int) (Q : Pt) (hQ : OnCurve secp256k1 Q) (rQ : Reduced secp256k1 Q)
+    (z r s : Int) (hz : z ≠ 0) :
+    verify secp256k1 bf Q z r s = .ok true ↔
+      1 ≤ r ∧ r < secp256k1.n ∧ 1 ≤ s ∧ s < secp256k1.n ∧
+      ((∃ l, possiblePublicPairsForSignature secp256k1 bf' z r s none = .ok l ∧ Q ∈ l) ∨
+       (∃ l, possiblePublicPairsForSignature secp256k1 bf' z (r + secp256k1.n) s none = .ok l ∧ Q ∈ l)) :=
+  C01_verifying_keys_partial C01_ecdsaOk_secp256k1 (by decide +kernel) order_all_secp256k1 p_le_2n_secp256k1 bf bf' Q hQ rQ z r s hz
+
+theorem C01_verifying_keys_secp256r1 (bf bf' : Int) (Q : Pt) (hQ : OnCurve secp256r1 Q) (rQ : Reduced secp256r1 Q)
+    (z r s : Int) (hz : z ≠ 0) :
+    verify secp256r1 bf Q z r s = .ok true ↔
+      1 ≤ r ∧ r < secp256r1.n ∧ 1 ≤ s ∧ s < secp256r1.n ∧
+      ((∃ l, possiblePublicPairsForSignature secp256r1 bf' z r s none = .ok l ∧ Q ∈ l) ∨
+       (∃ l, possiblePublicPairsForSignature secp256r1 bf' z (r + secp256r1.n) s none = .ok l ∧ Q ∈ l)) :=
+  C01_verifying_keys_partial C01_ecdsaOk_secp256r1 (by decide +kernel) order_all_secp256r1 p_le_2n_secp256r1 bf bf' Q hQ rQ z r s hz
+
+/-- for `r ≥ p − n` (all but `p − n < 2¹²⁹` of the `≈ 2²⁵⁶` values) there is no abscissa `r + n`: **verifying ⇔ recovered** -/
+theorem C01_verifying_keys_eq_recovered_secp256k1 (bf bf' : Int) (Q : Pt) (hQ : OnCurve secp256k1 Q) (rQ : Reduced secp256k1 Q)
+    (z r s : Int) (hz : z ≠ 0) (hr : (secp256k1.p : Int) ≤ r + secp256k1.n) :
+    verify secp256k1 bf Q z r s = .ok true ↔
+      1 ≤ r ∧ r < secp256k1.n ∧ 1 ≤ s ∧ s < secp256k1.n ∧
+      ∃ l, possiblePublicPairsForSignature secp256k1 bf' z r s none = .ok l ∧ Q ∈ l :=
+  verify_iff_recovered_large_r C01_ecdsaOk_secp256k1 (by decide +kernel) order_all_secp256k1 p_le_2n_secp256k1 bf bf' Q hQ rQ z r s hz hr
+
+theorem C01_verifying_keys_eq_recovered_secp256r1 (bf bf' : Int) (Q : Pt) (hQ : OnCurve secp256r1 Q) (rQ : Reduced secp256r1 Q)
+    (z r s : Int) (hz : z ≠ 0) (hr : (secp256r1.p : Int) ≤ r + secp256r1.n) :
+    verify secp256r1 bf Q z r s = .ok true ↔
+      1 ≤ r ∧ r < secp256r1.n ∧ 1 ≤ s ∧ s < secp256r1.n ∧
+      ∃ l, possiblePublicPairsForSignature secp256r1 bf' z r s none = .ok l ∧ Q ∈ l :=
+  verify_iff_recovered_large_r C01_ecdsaOk_secp256r1 (by decide +kernel) order_all_secp256r1 p_le_2n_secp256r1 bf bf' Q hQ rQ z r s hz hr
+
+/-- **completeness of recovery for ANY verifying key whose nonce point has `x(R) < n`** (not only the honest signer of
+`C01_recover_complete`): if `(z, r, s)` verifies under `Q` and `(z/s)•G + (r/s)•Q = (x, y)` with `x < n`, recovery returns `Q` -/
+theorem C01_recover_complete_of_verify_secp256k1 (bf bf' : Int) (Q : Pt) (hQ : OnCurve secp256k1 Q) (rQ : Reduced secp256k1 Q)
+    (z r s : Int) (hz : z ≠ 0) (hv : verify secp256k1 bf Q z r s = .ok true) (x y : Int)
+    (hc : containsXY secp256k1 x y = true) (hx0 : 0 ≤ x) (hxp : x < secp256k1.p) (hy0 : 0 ≤ y) (hyp : y < secp256k1.p)
+    (hR : toPoint secp256k1 (some (x, y)) = noncePointOf secp256k1 z r s (toPoint secp256k1 Q)) (hxn : x < secp256k1.n) :
+    ∃ l, possiblePublicPairsForSignature secp256k1 bf' z r s none = .ok l ∧ Q ∈ l :=
+  recovered_of_verify_small_x C01_ecdsaOk_secp256k1 (by decide +kernel) order_all_secp256k1 bf bf' Q hQ rQ z r s hz hv x y hc
+    hx0 hxp hy0 hyp hR hxn
+
+theorem C01_recover_complete_of_verify_secp256r1 (bf bf' : Int) (Q : Pt) (hQ : OnCurve secp256r1 Q) (rQ : Reduced secp256r1 Q)
+    (z r s : Int) (hz : z ≠ 0) (hv : verify secp256r1 bf Q z r s = .ok true) (x y : Int)
+    (hc : containsXY secp256r1 x y = true) (hx0 : 0 ≤ x) (hxp : x < secp256r1.p) (hy0 : 0 ≤ y) (hyp : y < secp256r1.p)
+    (hR : toPoint secp256r1 (some (x, y)) = noncePointOf secp256r1 z r s (toPoint secp256r1 Q)) (hxn : x < secp256r1.n) :
+    ∃ l, possiblePublicPairsForSignature secp256r1 bf' z r s none = .ok l ∧ Q ∈ l :=
+  recovered_of_verify_small_x C01_ecdsaOk_secp256r1 (by decide +kernel) order_all_secp256r1 bf bf' Q hQ rQ z r s hz hv x y hc
+    hx0 hxp hy0 hyp hR hxn
+
+/-- **at most four public keys verify a given `(z, r, s)`** on secp256k1 (two with nonce abscissa `r`, two with `r + n`): the
+structural half of "rejects a signature presented with any other key" -/
+theorem C01_verifying_keys_finite_secp256k1 (bf z r s : Int) (hz : z ≠ 0) (l : List Pt) (hnd : l.Nodup)
+    (hl : ∀ Q ∈ l, OnCurve secp256k1 Q ∧ Reduced secp256k1 Q ∧ verify secp256k1 bf Q z r s = .ok true) : l.length ≤ 4 :=
+  verifying_keys_le_four C01_ecdsaOk_secp256k1 (by decide +kernel) order_all_secp256k1 p_le_2n_secp256k1 bf z r s hz l hnd hl
+
+theorem C01_verifying_keys_finite_secp256r1 (bf z r s : Int) (hz : z ≠ 0) (l : List Pt) (hnd : l.Nodup)
+    (hl : ∀ Q ∈ l, OnCurve secp256r1 Q ∧ Reduced secp256r1 Q ∧ verify secp256r1 bf Q z r s = .ok true) : l.length ≤ 4 :=
+  verifying_keys_le_four C01_ecdsaOk_secp256r1 (by decide +kernel) order_all_secp256r1 p_le_2n_secp256r1 bf z r s hz l hnd hl
+
+/-- **at most four residue classes of hashes verify under a given key and `(r, s)`** on secp256k1: the structural half of
+"rejects a signature presented with any other hash" (it is not "one class": `C01_second_hash_verifies`) -/
+theorem C01_verifying_hashes_finite_secp256k1 (bf : Int) (Q : Pt) (hQ : OnCurve secp256k1 Q) (rQ : Reduced secp256k1 Q) (r s : Int)
+    (l : List Int) (hpw : l.Pairwise (fun z z' => z % (secp256k1.n : Int) ≠ z' % (secp256k1.n : Int)))
+    (hl : ∀ z ∈ l, z ≠ 0 ∧ verify secp256k1 bf Q z r s = .ok true) : l.length ≤ 4 :=
+  verifying_hashes_le_four C01_ecdsaOk_secp256k1 (by decide +kernel) p_le_2n_secp256k1 bf Q hQ rQ (order_all_secp256k1 _) r s l hpw hl
+
+theorem C01_verifying_hashes_finite_secp256r1 (bf : Int) (Q : Pt) (hQ : OnCurve secp256r1 Q) (rQ : Reduced secp256r1 Q) (r s : Int)
+    (l : List Int) (hpw : l.Pairwise (fun z z' => z % (secp256r1.n : Int) ≠ z' % (secp256r1.n : Int)))
+    (hl : ∀ z ∈ l, z ≠ 0 ∧ verify secp256r1 bf Q z r s = .ok true) : l.length ≤ 4 :=
+  verifying_hashes_le_four C01_ecdsaOk_secp256r1 (by decide +kernel) p_le_2n_secp256r1 bf Q hQ rQ (order_all_secp256r1 _) r s l hpw hl
+
+/-- `z` and `z + n` (and any two non-zero hashes congruent modulo `n`) verify alike on secp256k1, for every curve point -/
+theorem C01_verify_hash_mod_n_secp256k1 (bf : Int) (Q : Pt) (hQ : OnCurve secp256k1 Q) (rQ : Reduced secp256k1 Q)
+    (z z' r s : Int) (hz : z ≠ 0) (hz' : z' ≠ 0) (hzz : z % (secp256k1.n : Int) = z' % (secp256k1.n : Int)) :
+    verify secp256k1 bf Q z r s = verify secp256k1 bf Q z' r s :=
+  C01_verify_hash_mod_n_partial C01_ecdsaOk_secp256k1 bf Q hQ rQ (order_all_secp256k1 _) z z' r s hz hz' hzz
+
+theorem C01_verify_hash_mod_n_secp256r1 (bf : Int) (Q : Pt) (hQ : OnCurve secp256r1 Q) (rQ : Reduced secp256r1 Q)
+    (z z' r s : Int) (hz : z ≠ 0) (hz' : z' ≠ 0) (hzz : z % (secp256r1.n : Int) = z' % (secp256r1.n : Int)) :
+    verify secp256r1 bf Q z r s = verify secp256r1 bf Q z' r s :=
+  C01_verify_hash_mod_n_partial C01_ecdsaOk_secp256r1 bf Q hQ rQ (order_all_secp256r1 _) z z' r s hz hz' hzz
+
+/-! evaluated (tests, non-vacuity of `C01_verifying_keys_secp256k1`): (1) an honest signature — the signer verifies and is recovered at the
+abscissa `r`; (2) a constructed nonce point with `x(R) = n + 2 ≥ n` (`r = 2`): the keys recovered at the abscissa `r + n` verify
+`(z, 2, s)`, and recovery at the abscissa `r = 2`, which is all `Generator` users ask for, does not return them -/
+#guard (match Pycoin.RFC6979.sign secp256k1 0 12345 987654321, mulG secp256k1 0 12345 with
+  | .ok (r, s), .ok Q =>
+    (verify secp256k1 0 Q 987654321 r s matches .ok true) &&
+    (match possiblePublicPairsForSignature secp256k1 0 987654321 r s none with | .ok l => l.contains Q && l.length == 2 | _ => false)
+  | _, _ => false)
+#guard (match possiblePublicPairsForSignature secp256k1 0 987654321 (2 + secp256k1.n) 777 none,
+    possiblePublicPairsForSignature secp256k1 0 987654321 2 777 none with
+  | .ok [K0, K1], .ok l2 =>
+    (verify secp256k1 0 K0 987654321 2 777 matches .ok true) && (verify secp256k1 0 K1 987654321 2 777 matches .ok true) &&
+    !(l2.contains K0) && !(l2.contains K1) && (verify secp256k1 0 K0 987654321 3 777 matches .ok false)
+  | _, _ => false)
+
+end Pycoin.Gen.Curves
+
+/-! ## "the nonce depends on both key and hash", without cryptographic assumptions
+
+`deterministic_generate_k(n, d, z)` is a function of `hmacSeed n d z = int2octets(d) ‖ bits2octets(z)` alone
+(`C01_nonce_factors_through_seed`), the seed is the RFC's (`C01_nonce_seed_eq_spec`), and it is an INJECTIVE encoding of
+`(d, bits2int(z) mod n)` (`C01_nonce_seed_injective`): two `(key, hash)` pairs reach HMAC with the same input blocks iff the keys
+are equal and the hashes agree after `bits2octets`.  For a 256-bit order these are `z' ∈ {z, z ± n}`
+(`C01_nonce_seed_collisions_256`) — there the nonce IS shared, as RFC 6979 prescribes, and the two signatures are the same triple
+(`C01_sign_hash_plus_n`), so nothing leaks; "distinct (key, hash) pairs" of the property has to be read as distinct
+`(d, z mod n)`.  That distinct seeds give distinct nonces is a property of HMAC-SHA256 (an assumption: a collision of the
+HMAC-DRBG outputs on distinct inputs). -/
+namespace Pycoin.RFC6979
+open Pycoin Pycoin.Curve
+
+theorem C01_nonce_factors_through_seed (fuel n : Nat) (d val : Int) :
+    deterministicGenerateKFuel fuel n d val =
+      match hmacSeed n d val with
+      | .error e => .error e
+      | .ok seed => kFromSeed fuel n seed :=
+  deterministicK_factors fuel n d val
+
+/-- the seed is `int2octets(x) ‖ bits2octets(h1)` of the RFC-text specification, for every order and 32-byte hash -/
+theorem C01_nonce_seed_eq_spec (n : Nat) (hn : n ≠ 0) (d : Nat) (hd : d < n) (h1 : Bytes) (hh : h1.length = 32) :
+    hmacSeed n (d : Int) (beNat h1 : Int) = .ok (Spec.RFC6979.int2octets n d ++ Spec.RFC6979.bits2octets n h1) :=
+  hmacSeed_eq_spec n hn d hd h1 hh
+
+/-- injectivity of the encoding fed to HMAC, any order, any integers: same seed ⇔ same key and same reduced hash -/
+theorem C01_nonce_seed_injective (n : Nat) (d d' val val' : Int) (x : Bytes) (hx : hmacSeed n d val = .ok x) :
+    hmacSeed n d' val' = .ok x ↔
+      (d = d' ∧ reducedHash n val = reducedHash n val' ∧ ∃ y, hmacSeed n d' val' = .ok y) :=
+  hmacSeed_eq_iff n d d' val val' x hx
+
+/-- which `(key, hash)` pairs share their HMAC-DRBG input on a 256-bit order: same key and `z' ∈ {z, z + n, z − n}` -/
+theorem C01_nonce_seed_collisions_256 (n : Nat) (hbl : bitLength n = 256) (d d' z z' : Nat) (hd : d < n) (hd' : d' < n)
+    (hz : z < 2 ^ 256) (hz' : z' < 2 ^ 256) :
+    hmacSeed n d z = hmacSeed n d' z' ↔ (d = d' ∧ (z = z' ∨ z = z' + n ∨ z' = z + n)) :=
+  hmacSeed_eq_iff_256 n hbl d d' z z' hd hd' hz hz'
+
+/-- `z` and `z + n` get the same nonce AND the same signature (secp256k1; `0 < z`, `z + n < 2²⁵⁶`): the shared nonce signs
+the same equation twice -/
+theorem C01_sign_hash_plus_n_secp256k1 (bf : Int) (d z : Nat) (hd : d < Gen.Curves.secp256k1.n) (hz0 : 0 < z)
+    (hz : z + Gen.Curves.secp256k1.n < 2 ^ 256) :
+    signWithRecid Gen.Curves.secp256k1 bf d ((z : Int) + Gen.Curves.secp256k1.n) = signWithRecid Gen.Curves.secp256k1 bf d z :=
+  signWithRecid_add_n _ (by decide +kernel) bf d z hd hz0 hz
+
+theorem C01_sign_hash_plus_n_secp256r1 (bf : Int) (d z : Nat) (hd : d < Gen.Curves.secp256r1.n) (hz0 : 0 < z)
+    (hz : z + Gen.Curves.secp256r1.n < 2 ^ 256) :
+    signWithRecid Gen.Curves.secp256r1 bf d ((z : Int) + Gen.Curves.secp256r1.n) = signWithRecid Gen.Curves.secp256r1 bf d z :=
+  signWithRecid_add_n _ (by decide +kernel) bf d z hd hz0 hz
+
+/-! evaluated (tests): the nonce of `(d, z)` and of `(d, z + n)` coincide on secp256k1, those of `(d, z + 1)` and `(d + 1, z)` differ -/
+#guard (deterministicGenerateK Gen.Curves.secp256k1.n 7 5 matches .ok _)
+#guard (match deterministicGenerateK Gen.Curves.secp256k1.n 7 5, deterministicGenerateK Gen.Curves.secp256k1.n 7 (5 + Gen.Curves.secp256k1.n),
+    deterministicGenerateK Gen.Curves.secp256k1.n 7 6, deterministicGenerateK Gen.Curves.secp256k1.n 8 5 with
+  | .ok a, .ok b, .ok c, .ok d => a == b && a != c && a != d && c != d
+  | _, _, _, _ => false)
+
+end Pycoin.RFC6979
+
+/-! ## `Key.sign` / `Key.verify` (the DER wrapper applications use) -/
+namespace Pycoin.KeySign
+open Pycoin Pycoin.Curve Pycoin.KeyCtor Pycoin.Gen.Curves
+
+section generic
+variable {c : CurveParams} [Good c] (ok : ECDSAOk c)
+include ok
+
+/-- **`Key.verify` never raises**: for a key whose public pair is on the curve (the `Key` constructor refuses any other), every
+hash byte string and EVERY byte string presented as signature — malformed DER, trailing bytes, negative or oversized
+integers, the empty string — is answered with a Boolean -/
+theorem C01_key_verify_total (bf : Int) (k : Key) (hk : containsXY c k.pub.1 k.pub.2 = true) (h sig : Bytes) :
+    ∃ b, keyVerify c bf k h sig = .ok b :=
+  keyVerify_total ok bf k hk h sig
+
+/-- on a blob that strict DER decoding accepts, `Key.verify` is `Generator.verify` of the decoded pair (to which
+`C01_verify_iff_*` applies); on any other blob it is `False` -/
+theorem C01_key_verify_eq_verify (bf : Int) (k : Key) (hk : containsXY c k.pub.1 k.pub.2 = true) (h sig : Bytes) :
+    (∀ r s, Der.sigdecodeDer sig false = .ok (r, s) →
+      ∃ b, verify c bf (some k.pub) (fromBytes32 h) r s = .ok b ∧ keyVerify c bf k h sig = .ok b) ∧
+    (∀ e, Der.sigdecodeDer sig false = .error e → keyVerify c bf k h sig = .ok false) :=
+  ⟨fun r s hd => keyVerify_decoded ok bf k hk h sig r s hd, fun e hd => keyVerify_bad_der bf k h sig e hd⟩
+
+/-- **`Key.verify(h, Key.sign(h)) = True`** for every private key the constructor accepts and every hash on which `Key.sign`
+returns (it raises `ValueError` on the zero hash); also under `public_copy()` and under any key object with the same public pair
+(`Key.from_sec(key.sec())`: C10), whatever the blinding factors.  The signature is the strict DER of `1 ≤ r, s < n`. -/
+theorem C01_key_sign_verifies (bf0 bf bf' d : Int) (comp : Bool) (k : Key) (hk : keyFromSecret c bf0 d comp = .ok k)
+    (h sig : Bytes) (hs : keySign c bf k h = .ok sig) :
+    fromBytes32 h ≠ 0 ∧
+    (∃ r s : Int, 1 ≤ r ∧ r < c.n ∧ 1 ≤ s ∧ s < c.n ∧ Der.sigencodeDer r s = .ok sig ∧ Der.sigdecodeDer sig false = .ok (r, s)) ∧
+    keyVerify c bf' k h sig = .ok true ∧ keyVerify c bf' (publicCopy k) h sig = .ok true ∧
+    ∀ k' : Key, k'.pub = k.pub → keyVerify c bf' k' h sig = .ok true :=
+  keySign_verifies ok bf0 bf bf' d comp k hk h sig hs
+
+end generic
+
+/-- a public key cannot sign: `RuntimeError`, before anything else -/
+theorem C01_key_sign_public (c : CurveParams) (bf : Int) (k : Key) (hse : k.se = none) (h : Bytes) :
+    keySign c bf k h = .error .runtime :=
+  keySign_public bf k hse h
+
+theorem field32_secp256k1 : Sec.Field32 secp256k1 := ⟨by decide +kernel, by decide +kernel, by decide +kernel⟩
+
+/-- **histories on one key object** (secp256k1, the generator of every `Key` class): in any sequence of `sign`, `verify`,
+`public_copy()` and `Key.from_sec(key.sec())` steps, every `verify` answer equals the answer of a fresh public key built from the
+initial public pair — no earlier call, copy or re-encoding influences it -/
+theorem C01_key_history_fresh (bf : Int) (steps : List Step) (st : HState) (hk : KInv secp256k1 st.key) :
+    answersOK secp256k1 bf st.key.pub st steps :=
+  history_fresh field32_secp256k1 (by decide +kernel) bf st.key.pub steps st hk rfl
+
+/-- non-vacuity: the keys the constructor makes from a secret exponent satisfy the invariant of the history theorem -/
+theorem C01_key_history_invariant (bf d : Int) (comp : Bool) (k : Key) (hk : keyFromSecret secp256k1 bf d comp = .ok k) :
+    KInv secp256k1 k := by
+  have ok := C01_ecdsaOk_secp256k1
+  unfold keyFromSecret keyFromSecretWith at hk
+  split at hk
+  · cases hk
+  cases hm : mulG secp256k1 bf d with
+  | error e => rw [hm] at hk; cases hk
+  | ok Q =>
+    rw [hm] at hk
+    match Q, hm with
+    | none, _ => cases hk
+    | some (x, y), hm =>
+      simp only at hk
+      split at hk
+      · rename_i hon
+        injection hk with hk
+        subst hk
+        obtain ⟨Q', q1, q2, q3, q4, q5⟩ := pubkey_spec ok bf d
+        rw [hm] at q1; injection q1 with q1; subst q1
+        obtain ⟨a1, a2, a3, a4⟩ := q3
+        exact ⟨hon, a1, a2, y_pos_of_torsion ok hon a3 q5, a4⟩
+      · cases hk
+
+/-! evaluated (tests): sign, verify, verify under the public copy, a flipped hash, garbage, trailing byte, on secp256k1 -/
+section examples
+def exKey : Except Sec.Err Key := keyFromSecret secp256k1 0 12345 true
+def exHash : Bytes := List.replicate 31 0 ++ [9]
+#guard (match exKey with
+  | .ok k =>
+    (match keySign secp256k1 0 k exHash with
+     | .ok sig =>
+       (keyVerify secp256k1 0 k exHash sig matches .ok true) &&
+       (keyVerify secp256k1 0 (publicCopy k) exHash sig matches .ok true) &&
+       (keyVerify secp256k1 0 k (List.replicate 31 0 ++ [8]) sig matches .ok false) &&
+       (keyVerify secp256k1 0 k exHash (sig ++ [0]) matches .ok false) &&
+       (keyVerify secp256k1 0 k exHash [] matches .ok false) &&
+       (keyVerify secp256k1 0 k exHash [0x30, 0x80] matches .ok false) &&
+       (keySign secp256k1 0 (publicCopy k) exHash matches .error .runtime) &&
+       (keySign secp256k1 0 k (List.replicate 32 0) matches .error (.curve .value))
+     | .error _ => false)
+  | .error _ => false)
+end examples
+
+end Pycoin.KeySign
+
+/-! ## what the correspondence driver evaluates is the model
+
+For secp256k1 / secp256r1 the driver reads `Generator._powers` from a table built once (`DriverLib/CachedGen.lean`; the model's
+`raw_mul` rebuilds it on every call).  The functions it evaluates for the ops `sign`, `verify`, `recover`, `keysign*`,
+`keyverify*`, `keyhist` are EQUAL to the model's, with blinding factor 0. -/
+namespace Pycoin.DriverLib.CachedGen
+open Pycoin Pycoin.Curve
+
+theorem C01_driver_cached_is_model (c : CurveParams) :
+    signRecidF c = Pycoin.RFC6979.signWithRecid c 0 ∧ signF c = Pycoin.RFC6979.sign c 0 ∧ verifyF c = Curve.verify c 0 ∧
+    recoverF c = Curve.possiblePublicPairsForSignature c 0 ∧ mulGF c = Curve.mulG c 0 ∧
+    (∀ d comp, KeyCtor.keyFromSecretWith c (mulGF c) d comp = KeyCtor.keyFromSecret c 0 d comp) ∧
+    KeySign.keySignWith (signF c) = KeySign.keySign c 0 ∧ KeySign.keyVerifyWith (verifyF c) = KeySign.keyVerify c 0 ∧
+    KeySign.runWith c (signF c) (verifyF c) = KeySign.run c 0 := by
+  refine ⟨signRecidF_eq c, signF_eq c, verifyF_eq c, recoverF_eq c, mulGF_eq c, ?_, ?_, ?_, ?_⟩
+  · intro d comp; rw [mulGF_eq]; rfl
+  · rw [signF_eq]; rfl
+  · rw [verifyF_eq]; rfl
+  · rw [signF_eq, verifyF_eq]; rfl
+
+/-- the answers `keyhist` prints are the answers of the steps `C01_key_history_fresh` speaks about -/
+theorem C01_key_history_run (c : CurveParams) (bf : Int) (st : KeySign.HState) (s : KeySign.Step) (ss : List KeySign.Step) :
+    KeySign.run c bf st (s :: ss) = (KeySign.step c bf st s).2 :: KeySign.run c bf (KeySign.step c bf st s).1 ss := rfl
+
+end Pycoin.DriverLib.CachedGen
